@@ -300,6 +300,10 @@ func calculateModRM(mem *ng_operand.MemoryInfo, bitMode cpu.BitMode, regBits byt
 		default:
 			// Check if 32-bit registers are used in 16-bit mode (requires 67h prefix)
 			is32BitAddrMode := is32BitRegister(mem.BaseReg) || is32BitRegister(mem.IndexReg)
+			if is32BitAddrMode && uses16BitAddressRegister(mem) {
+				// [BX+EAX] のように 16 ビットと 32 ビットのレジスタを混在させたアドレスはエンコードできない
+				return 0, 0, nil, fmt.Errorf("16-bit and 32-bit registers cannot be mixed in an address: Base=%s, Index=%s", mem.BaseReg, mem.IndexReg)
+			}
 			if is32BitAddrMode {
 				// If 32-bit registers are used, treat as 32-bit addressing mode for ModR/M calculation.
 				// The 67h prefix should be added by the caller based on ng_operand.Require67h().
